@@ -119,6 +119,10 @@ def shapes(fmt):
         if fmt == 'aif' and tag == 'zero_in_the_middle':
             continue  # interleaved branches: listed finding of the AIF format
         yield f"shape:{tag}", pygaps.PointIsotherm(pressure=p, loading=l, branch=b, **meta)
+    # required values that are zero or falsy in Python: 0 degrees Celsius, and a numerical zero among the user's metadata
+    zmeta = dict(meta, temperature=0.0, temperature_unit='°C')
+    yield "shape:temperature_zero_celsius", pygaps.PointIsotherm(pressure=[0.1, 0.2, 0.4], loading=[1.0, 1.5, 2.0], **zmeta)
+    yield "shape:metadata_value_zero", pygaps.PointIsotherm(pressure=[0.1, 0.2, 0.4], loading=[1.0, 1.5, 2.0], activation_offset=0.0, **meta)
     # a table with repeated row labels (pandas.concat of two measurements), branch given and guessed
     a = pandas.DataFrame({'pressure': [0.1, 0.2, 0.3], 'loading': [1.0, 2.0, 2.5]})
     for br in ('ads', 'guess'):
